@@ -778,3 +778,24 @@ def c13_command_tables_ground(repo, tier):
     return _pinned_subset(repo, "command-tables", "command-items",
                           lambda k: k.startswith("Ud") or k in ("EconActive", "TempUnits", "SetpointG"),
                           lambda f: False)
+
+
+def c17_tables_native_ground(repo, tier):
+    """GROUND (native): every switch history of length <= 3 leaves exactly the published table in the live configuration object,
+    read through CPython's own attribute lookup (dataclass fields, inheritance), and wakes the sleeper"""
+    import subprocess
+    env = dict(os.environ)
+    env["PYTHONPATH"] = os.path.join(repo, "src")
+    verif = os.path.dirname(os.path.dirname(os.path.abspath(__file__)))
+    p = subprocess.run([os.environ.get("PYVC_NATIVE_PY", "/venv/bin/python"), os.path.join(verif, "native", "c17_tables_native.py")],
+                       capture_output=True, text=True, env=env, timeout=600)
+    try:
+        r = json.loads(p.stdout.strip().splitlines()[-1])
+    except Exception:
+        return {"name": "native-tables", "backend": "ground-native-enumeration", "obligations": [
+            {"name": "published-table-installed-after-every-switch", "status": "unknown", "detail": (p.stdout + p.stderr)[-400:]}]}
+    ok = r["n_bad"] == 0 and r["switches"] > 0
+    return {"name": "native-tables", "backend": "ground-native-enumeration(all switch histories of length <= 3, CPython attribute lookup)",
+            "obligations": [{"name": "published-table-installed-after-every-switch(%d switches)" % r["switches"],
+                             "status": "proved" if ok else "refuted", "detail": json.dumps(r["bad"][:3]), "witness": r["bad"][:3], "confirmed": not ok}],
+            "samples": [{"switches": r["switches"]}]}
